@@ -429,7 +429,7 @@ fn dfs(
     let acts = w.enabled(cfg, trace.len(), max);
     drop(w);
     for a in acts {
-        if trace.is_empty() {
+        if trace.len() == 1 {
             *idx += 1;
             if !ctx.mine(*idx) {
                 continue;
